@@ -23,7 +23,7 @@ import (
 
 func TestVerifC21_Concurrent(t *testing.T) {
 	rec := kit.For(t, "C21")
-	n := kit.Scale("c21conc", 6, 40)
+	n := kit.Scale("c21conc", 6, 10)
 	gen := rapid.Custom(func(rt *rapid.T) c21Case {
 		zones := rapid.SampledFrom([]int{1, 2, 3, 3, 4}).Draw(rt, "zones")
 		per := rapid.SampledFrom([]int{2, 3, 4, 5}).Draw(rt, "perZone")
